@@ -422,6 +422,13 @@ class Session:
         self.violations.append(dict(key=key, what=what, replay=replay, count=1))
 
     def finish(self, level='other', explanation='', trusted=None):
+        xc = explore.XCHECK
+        if xc['period']:
+            self.validation['second_solver_sampling'] = dict(every_nth_query=xc['period'], queries_sampled=xc['sampled'], verdicts_agreeing=xc['agree'],
+                                                             verdicts_inconclusive=xc['inconclusive'], disagreements=xc['disagree'][:5],
+                                                             solvers=['cvc5 1.0.3', 'z3 4.8.12 (/usr/bin/z3)'], note='sampled in the main process only (worker processes do not sample)')
+            if xc['disagree']:
+                self.inconclusive.append('second solver disagrees on %d sampled queries: %r' % (len(xc['disagree']), xc['disagree'][0]))
         known = []
         kf = os.path.join(VERIF, 'known_findings.json')
         if os.path.exists(kf):
@@ -430,6 +437,8 @@ class Session:
         new = []
         # runs against another checkout (VERIF_REPO) never touch the committed evidence
         evdir = os.path.join(VERIF, 'evidence') if not RTAG else os.path.join(CACHE, 'evidence' + RTAG)
+        if os.environ.get('VERIF_EVIDENCE_DIR'):
+            evdir = os.environ['VERIF_EVIDENCE_DIR']      # auxiliary runs (second-solver sampling) keep the committed evidence untouched
         os.makedirs(os.path.join(VERIF, 'replays'), exist_ok=True)
         os.makedirs(evdir, exist_ok=True)
         for v in self.violations:
